@@ -130,7 +130,33 @@ def check_cases(cases, shuffle, to_df, spelling):
     return probs
 
 
-tried = 0
+def check_labelled_outputs():
+    """var_names=None: the function returns labelled data whose internal coordinate may depend on the arguments"""
+    import xarray as xr
+
+    def window(n, k):
+        sites = [n, n + 1, n + 2]
+        return xr.Dataset({"occ": ("site", [100 * n + 10 * k + s_ for s_ in sites])}, coords={"site": sites})
+    combos = {"n": [0, 2], "k": [1, 2]}
+    with quiet():
+        ds = xyz.combo_runner_to_ds(window, combos, var_names=None, verbosity=0)
+    for n in combos["n"]:
+        for k in combos["k"]:
+            ret = window(n, k)["occ"]
+            for s_ in ret["site"].values:
+                try:
+                    got = ds["occ"].sel(n=n, k=k, site=s_).item()
+                except KeyError:
+                    return [f"fn(n={n}, k={k}) returned site {s_} but that label does not exist (site: {list(ds['site'].values)})"]
+                if got != ret.sel(site=s_).item():
+                    return [f"at n={n}, k={k}, site={s_} the dataset has {got}, the function returned {ret.sel(site=s_).item()}"]
+    return None
+
+
+tried = 1
+pr = check_labelled_outputs()
+if pr:
+    finish(True, input=dict(form="Dataset", outputs="labelled (var_names=None), argument-dependent internal coordinate"), observed=pr, tried=tried)
 for rep in range(8):
     pool = [(a, b) for a in (1, 2, 3, 4) for b in (10, 20, 30)]
     cases = rnd.sample(pool, rnd.randint(1, 5))
